@@ -277,6 +277,31 @@ def check_s3(chk, m, K):
     chk.expect("S3", "queue insertions on paths", n_sites, 2)    # at least: one into the run queue, one into the timer queue
 
 
+def _ucs_guards_itself(m, K):
+    """update_current_state() does nothing on every path on which kernel.current is NULL, and tests it on every path that does
+    something."""
+    try:
+        fn, ps = fib.fn_paths(m, "update_current_state")
+    except Exception:
+        return False
+    for p in ps:
+        if paths.is_assert_fail_path(p):
+            continue
+        cur = None
+        first_effect = min([k for k, e in enumerate(p.events) if e.kind in ("store", "call", "rmw", "cmpxchg", "memset", "memcpy")], default=None)
+        for (c, taken, inst), pos in zip(p.conds, p.cond_pos):
+            cc = strip_casts(c)
+            if cc[0] == "icmp" and cc[1] in ("eq", "ne") and ("null",) in (cc[2], cc[3]):
+                o = strip_casts(cc[2] if cc[3] == ("null",) else cc[3])
+                if o[0] == "ld" and o[1] == K.kptr("current") and cur is None and (first_effect is None or pos <= first_effect):
+                    cur = (cc[1] == "ne") == bool(taken)
+        if cur is None and first_effect is not None:
+            return False
+        if cur is False and first_effect is not None:
+            return False
+    return True
+
+
 def check_s4_s6(chk, m, K):
     fn, ps = fib.fn_paths(m, "fibre_scheduler_next")
     chk.note_fn(fn)
@@ -297,6 +322,9 @@ def check_s4_s6(chk, m, K):
                     if cur is None:
                         cur = (cc[1] == "ne") == bool(taken)
             if cur:
+                want.append("update_current_state")
+            elif cur is None and "update_current_state" in names and _ucs_guards_itself(m, K):
+                # called without a test here: the callee returns at once, having done nothing, when there is no previous fibre
                 want.append("update_current_state")
             want += ["handle_timerq", "get_next_task"]
             core = [x for x in key if x != "<indirect>"]
@@ -383,10 +411,51 @@ def check_s5(chk, m, K):
     chk.expect("S5", "state cases of update_current_state", len(seen), 4)
 
 
+def _reset_at_dispatch(m, K, sname):
+    """In fibre_scheduler_next: on every path on which the dispatched body's result equals the given state, current->priv := 0 is
+    stored after the call (and on no path on which the result is YIELDED or WAITING)."""
+    E = K.enums
+    want = {"EXITED": E.get("FIBRE_STATE_EXITED"), "FAILED": E.get("FIBRE_STATE_FAILED")}.get(sname)
+    others = [E.get("FIBRE_STATE_YIELDED"), E.get("FIBRE_STATE_WAITING")]
+    if want is None:
+        return False
+    try:
+        fn, ps = fib.fn_paths(m, "fibre_scheduler_next")
+    except Exception:
+        return False
+    seen_want = False
+    for p in ps:
+        if paths.is_assert_fail_path(p):
+            continue
+        ind = [(k, e) for k, e in enumerate(p.events) if e.kind == "call" and not isinstance(e.callee, str)]
+        if not ind:
+            continue
+        k0, call = ind[0]
+        resets = [k for k, e in enumerate(p.events) if k > k0 and e.kind == "store" and e.val[0] == "c" and e.val[2] == 0 and
+                  ptr_parts(e.ptr)[1] == K.fibre["priv"][0] and ptr_parts(e.ptr)[0][0] == "ld" and ptr_parts(e.ptr)[0][1] == K.kptr("current")]
+        mine = [cd for cd in p.conds if paths.contains(cd[0], lambda x: x == call.res)]
+        try:
+            for sv in [want] + others:
+                if sv is None:
+                    continue
+                if all(paths.cond_holds(cd, {call.res: sv}) for cd in mine):
+                    if sv == want:
+                        seen_want = True
+                        if len(resets) != 1:
+                            return False
+                    elif resets:
+                        return False
+        except NoValue:
+            return False
+    return seen_want
+
+
 def _s5_case(chk, fn, K, p, s, seen):
     if True:
         seen.add(s)
-        requeue = [e for k, e in fib.calls_on(p) if e.callee == "fibre_run" and e.args and strip_casts(e.args[0])[0] == "ld"
+        # (fibre_run = drain + make_runnable; inside the pass the drain has just been made - S4 checks that order - so
+        # make_runnable(current) alone is the same re-queue)
+        requeue = [e for k, e in fib.calls_on(p) if e.callee in ("fibre_run", "make_runnable") and e.args and strip_casts(e.args[0])[0] == "ld"
                    and strip_casts(e.args[0])[1] == K.kptr("current")]
         reset = [e for e in p.events if e.kind == "store" and e.val[0] == "c" and e.val[2] == 0 and ptr_parts(e.ptr)[1] == K.fibre["priv"][0]
                  and ptr_parts(e.ptr)[0][0] == "ld" and ptr_parts(e.ptr)[0][1] == K.kptr("current")]
@@ -399,6 +468,11 @@ def _s5_case(chk, fn, K, p, s, seen):
         else:
             ok = not requeue and len(reset) == 1
             why = "an exited/failed fibre is not re-queued and restarts from its beginning (priv := 0)"
+            if not requeue and not reset and _reset_at_dispatch(fn.module, K, s):
+                # the rewind was moved to the point where the body returns: nothing runs between the end of that pass and this
+                # function in the next one, and priv is read by the body alone
+                ok = True
+                why += " - done right after the body returned that state (fibre_scheduler_next)"
         chk.ob("S5.state-handling", "update_current_state state=%s" % s, ok,
                "%s; observed %d re-queue(s), %d reset(s)" % (why, len(requeue), len(reset)), fn.loc, fn.name)
 
